@@ -3,6 +3,105 @@
 //! declarative checker, `Driver/C07.lean`). Names are numbers: variables `v3`,
 //! constants `C1`, functions `f2`, types `T0`, fields `a4`, variants `K2`.
 
+
+use std::cell::RefCell;
+use std::collections::HashMap;
+
+/// identifiers of paths in packages of several modules (`modules.rs`)
+#[derive(Clone, Copy, Debug, PartialEq, Eq, Hash, PartialOrd, Ord)]
+pub enum Id {
+    Sup,
+    Pkg,
+    Mod(usize),
+    Fn(usize),
+    Const(usize),
+    Ty(usize),
+    Variant(usize),
+}
+
+impl Id {
+    /// the spelling, in Roto source and in the request to the Lean driver alike
+    pub fn tok(&self) -> String {
+        match self {
+            Id::Sup => "super".into(),
+            Id::Pkg => "pkg".into(),
+            Id::Mod(n) => format!("m{n}"),
+            Id::Fn(n) => format!("f{n}"),
+            Id::Const(n) => format!("C{n}"),
+            Id::Ty(n) => format!("T{n}"),
+            Id::Variant(n) => format!("K{n}"),
+        }
+    }
+}
+
+pub fn path_roto(p: &[Id]) -> String {
+    p.iter().map(|i| i.tok()).collect::<Vec<_>>().join(".")
+}
+
+pub fn path_sexp(p: &[Id]) -> String {
+    format!("({})", p.iter().map(|i| i.tok()).collect::<Vec<_>>().join(" "))
+}
+
+/// one use of an item, as written: the module of the site, the import lists of
+/// the enclosing blocks (innermost first), the path, the item meant
+#[derive(Clone, Debug, PartialEq)]
+pub struct UseRec {
+    pub module: usize,
+    pub frames: Vec<Vec<Vec<Id>>>,
+    pub path: Vec<Id>,
+    pub target: Id,
+    /// for a constructor `T.K`: the variant
+    pub variant: Option<usize>,
+}
+
+/// Rendering context of a module of a package: how the items of other modules
+/// are spelled here. Without a context (single-file scripts) every item is
+/// spelled by its bare name.
+#[derive(Clone, Debug, Default)]
+pub struct RenderCtx {
+    pub module: usize,
+    /// spelling of an item in this module (absent: the bare name)
+    pub spell: HashMap<Id, Vec<Id>>,
+    /// block-level imports of the enclosing blocks, outermost first
+    pub frames: Vec<Vec<Vec<Id>>>,
+    /// respellings those blocks bring, outermost first
+    pub overrides: Vec<Vec<(Id, Vec<Id>)>>,
+    /// every use rendered so far
+    pub uses: Vec<UseRec>,
+}
+
+thread_local! {
+    pub static RENDER: RefCell<Option<RenderCtx>> = const { RefCell::new(None) };
+}
+
+/// the path by which `item` is written at the current place (and a record of the use)
+fn item_path(item: Id, variant: Option<usize>) -> String {
+    RENDER.with(|r| {
+        let mut r = r.borrow_mut();
+        let Some(c) = r.as_mut() else {
+            let mut s = item.tok();
+            if let Some(k) = variant {
+                s.push_str(&format!(".K{k}"));
+            }
+            return s;
+        };
+        let mut path = None;
+        for fr in c.overrides.iter().rev() {
+            if let Some((_, p)) = fr.iter().rev().find(|(i, _)| *i == item) {
+                path = Some(p.clone());
+                break;
+            }
+        }
+        let mut path = path.or_else(|| c.spell.get(&item).cloned()).unwrap_or_else(|| vec![item]);
+        if let Some(k) = variant {
+            path.push(Id::Variant(k));
+        }
+        let frames: Vec<Vec<Vec<Id>>> = c.frames.iter().rev().cloned().collect();
+        c.uses.push(UseRec { module: c.module, frames, path: path.clone(), target: item, variant });
+        path_roto(&path)
+    })
+}
+
 #[derive(Clone, Debug, PartialEq)]
 pub enum Ty {
     /// 0‥7 = u8 u16 u32 u64 i8 i16 i32 i64
@@ -43,7 +142,7 @@ impl Ty {
             Ty::Unit => "()".into(),
             Ty::Opt(t) => format!("Option[{}]", t.roto()),
             Ty::List(t) => format!("List[{}]", t.roto()),
-            Ty::Named(n) => format!("T{n}"),
+            Ty::Named(n) => item_path(Id::Ty(*n), None),
             Ty::Verdict(a, r) => format!("Verdict[{}, {}]", a.roto(), r.roto()),
         }
     }
@@ -223,6 +322,9 @@ pub struct Arm {
 pub enum Stmt {
     Let(usize, Option<Ty>, Expr),
     Do(Expr),
+    /// `import path;` inside a block (packages of several modules only); within
+    /// the block the listed items are spelled as given
+    Import(Vec<Id>, Vec<(Id, Vec<Id>)>),
 }
 
 #[derive(Clone, Debug, PartialEq, Default)]
@@ -255,7 +357,7 @@ fn pat_name(n: PatName) -> String {
 }
 
 fn path_str(is_const: bool, x: usize, path: &[usize]) -> String {
-    let mut s = if is_const { format!("C{x}") } else { format!("v{x}") };
+    let mut s = if is_const { item_path(Id::Const(x), None) } else { format!("v{x}") };
     for f in path {
         s.push_str(&format!(".a{f}"));
     }
@@ -310,7 +412,7 @@ impl Expr {
             Expr::StrLit => "\"s\"".into(),
             Expr::UnitLit => "()".into(),
             Expr::Var(x) => format!("v{x}"),
-            Expr::Const(c) => format!("C{c}"),
+            Expr::Const(c) => item_path(Id::Const(*c), None),
             Expr::Field(e, f) => format!("{}.a{f}", e.roto_p()),
             Expr::Neg(e) => format!("-{}", e.roto_p()),
             Expr::Not(e) => format!("!{}", e.roto_p()),
@@ -326,7 +428,7 @@ impl Expr {
             Expr::For(x, e, b) => format!("for v{x} in {} {}", e.roto_p(), b.roto()),
             Expr::BlockE(b) => b.roto(),
             Expr::Call(f, args) => {
-                format!("f{f}({})", args.iter().map(|a| a.roto()).collect::<Vec<_>>().join(", "))
+                format!("{}({})", item_path(Id::Fn(*f), None), args.iter().map(|a| a.roto()).collect::<Vec<_>>().join(", "))
             }
             Expr::MCall(e, m, args) => format!(
                 "{}.{}({})",
@@ -352,15 +454,17 @@ impl Expr {
                 }
             }
             Expr::Record(t, fields) => format!(
-                "T{t} {{ {} }}",
+                "{} {{ {} }}",
+                item_path(Id::Ty(*t), None),
                 fields.iter().map(|(f, e)| format!("a{f}: {}", e.roto())).collect::<Vec<_>>().join(", ")
             ),
             Expr::ListLit(es) => format!("[{}]", es.iter().map(|e| e.roto()).collect::<Vec<_>>().join(", ")),
             Expr::Ctor(t, k, args) => {
+                let head = item_path(Id::Ty(*t), Some(*k));
                 if args.is_empty() {
-                    format!("T{t}.K{k}")
+                    head
                 } else {
-                    format!("T{t}.K{k}({})", args.iter().map(|a| a.roto()).collect::<Vec<_>>().join(", "))
+                    format!("{head}({})", args.iter().map(|a| a.roto()).collect::<Vec<_>>().join(", "))
                 }
             }
             Expr::Some(e) => format!("Option.Some({})", e.roto()),
@@ -497,9 +601,42 @@ impl Expr {
 
 impl Block {
     pub fn roto(&self) -> String {
+        // a block with imports is a frame of its own for the uses inside it
+        let imports: Vec<Vec<Id>> = self.stmts.iter().filter_map(|s| if let Stmt::Import(p, _) = s { Some(p.clone()) } else { None }).collect();
+        let imports_here = !imports.is_empty();
+        let imports: Vec<Vec<Id>> = imports.into_iter().filter(|p| !p.is_empty()).collect();
+        let framed = imports_here
+            && RENDER.with(|r| {
+                let mut r = r.borrow_mut();
+                match r.as_mut() {
+                    Some(c) => {
+                        c.frames.push(imports.clone());
+                        c.overrides.push(
+                            self.stmts.iter().filter_map(|s| if let Stmt::Import(_, o) = s { Some(o.clone()) } else { None }).flatten().collect(),
+                        );
+                        true
+                    }
+                    None => false,
+                }
+            });
+        let s = self.roto_inner();
+        if framed {
+            RENDER.with(|r| {
+                if let Some(c) = r.borrow_mut().as_mut() {
+                    c.frames.pop();
+                    c.overrides.pop();
+                }
+            });
+        }
+        s
+    }
+    fn roto_inner(&self) -> String {
         let mut s = "{ ".to_string();
         for st in &self.stmts {
             match st {
+                // (an empty path: only the respellings stay, the import itself was moved away)
+                Stmt::Import(p, _) if p.is_empty() => {}
+                Stmt::Import(p, _) => s.push_str(&format!("import {}; ", path_roto(p))),
                 Stmt::Let(x, None, e) => s.push_str(&format!("let v{x} = {}; ", e.roto())),
                 Stmt::Let(x, Some(t), e) => s.push_str(&format!("let v{x}: {} = {}; ", t.roto(), e.roto())),
                 // `if`/`match`/`while`/`for` at the start of a statement are parsed as
@@ -520,10 +657,12 @@ impl Block {
         let stmts: Vec<String> = self
             .stmts
             .iter()
+            .filter(|st| !matches!(st, Stmt::Import(..)))
             .map(|st| match st {
                 Stmt::Let(x, None, e) => format!("(let {x} _ {})", e.sexp()),
                 Stmt::Let(x, Some(t), e) => format!("(let {x} {} {})", t.sexp(), e.sexp()),
                 Stmt::Do(e) => format!("(do {})", e.sexp()),
+                Stmt::Import(..) => String::new(),
             })
             .collect();
         match &self.last {
